@@ -13,7 +13,7 @@ ENGINE = {'name': 'health',
  'serves': ['C11'],
  'rule': 'loopback upstream listeners switchable between refusing and accepting; scripted histories (connect with retries, close, switch, active '
          'probe, wait for expiry) for fail_duration 150/250/400 ms x max_fails 0..3, passive checks off, fail_duration 0, two-peer upstreams, '
-         'max_connections and unhealthy_connection_count limits, the grid max_connections set/unset x unhealthy_connection_count set/unset x fail_duration set/unset through Handler.Provision with four connections against the configured limit, dial failures injected with countFailure while the upstream is already out of rotation (staggered by 60..120 ms; the window must run from the latest one), active and passive checks combined (outage with remembered dial failures, active check marks the peer down and up again while they are remembered, expiry, second outage; fail_duration 600..900 ms), plus VERIF_N random histories of 5..10 steps (5..20 events) over 2..3 upstreams, '
+         'fail-over under every shipped selection policy (first, random, random_choose, least_conn, round_robin, ip_hash; random histories draw the policy too): the upstream listed first is out of rotation - remembered failure, failed active check, or at its connection limit through a connection held on the shared peer - and has the fewest open connections while the available ones carry load; every attempt for which the policy returned no upstream is checked against the availability the model and the property text compute (key C11:retry:no-upstream-although-available, case HNoUp), every proxied connection against rotation; max_connections and unhealthy_connection_count limits, the grid max_connections set/unset x unhealthy_connection_count set/unset x fail_duration set/unset through Handler.Provision with four connections against the configured limit, dial failures injected with countFailure while the upstream is already out of rotation (staggered by 60..120 ms; the window must run from the latest one), active and passive checks combined (outage with remembered dial failures, active check marks the peer down and up again while they are remembered, expiry, second outage; fail_duration 600..900 ms), plus VERIF_N random histories of 5..10 steps (5..20 events) over 2..3 upstreams, '
          'fail_duration 120..400 ms, try_duration 0/100/200 ms, try_interval 30 ms, first and round_robin; after every step the counters '
          '(fails, unhealthy, numConns) of every peer and available() of every upstream are read at an instant at least 45 ms away from every '
          'event and every expiry; retry scenarios with all upstreams refusing (try_duration 0/100/160/250 ms), upstreams dropping out one by one, '
